@@ -116,13 +116,15 @@ def proof_stage(pid, targets, allow_axioms=()):
         res["failures"].append("forbidden constructs: " + "; ".join(lint[:10]))
     pin = os.path.join(ROOT, "pins", f"{pid}.v")
     src = open(pin).read()
-    names = re.findall(r"^Check\s+(\w+)\s*:", src, re.M)
+    checks = re.findall(r"^Check\s+(\w+)\s*:", src, re.M)
     pa = re.findall(r"^Print Assumptions\s+(\w+)\s*\.", src, re.M)
+    names = [n for n in checks if n in set(pa)]          # theorems; the other Checks pin Examples
     res["theorems"] = names
+    res["pinned_examples"] = [n for n in checks if n not in set(pa)]
     res["obligations"] = len(names)
-    if set(names) != set(pa):
+    if set(pa) - set(checks):
         res["ok"] = False
-        res["failures"].append("pins: every Check needs a Print Assumptions and vice versa")
+        res["failures"].append("pins: every Print Assumptions needs a Check of the same theorem")
     rc2, out2 = sh(f"coqc -Q {COQ} SV -noglob {pin}", timeout=600)
     for junk in ("vo", "vos", "vok", "glob"):
         try:
@@ -317,6 +319,10 @@ def run_check(spec, argv):
             problems.append(("runner", f"implementation runner failed rc={rc}: " + out[-1500:]))
         else:
             lines, verdicts = run_driver(pid, cases_file)
+            floor = 1 if replay else spec.get("min_cases", {}).get(tier, max(1, min(20, spec["sizes"][tier] // 20)))
+            if len(lines) < floor:
+                problems.append(("runner", f"the runner produced {len(lines)} case lines, fewer than the floor {floor}: "
+                                           "nothing (or too little) was compared with the implementation"))
 
     # 3. verdict
     known = [k for k in load_known() if k.get("property") == pid]
@@ -418,6 +424,7 @@ def run_check(spec, argv):
         "checker_cmd": spec.get("checker_cmd", f"make -C coq {' '.join(spec['coq_targets'])} && coqc -Q coq SV pins/{pid}.v (Check <thm> : <statement> + Print Assumptions per theorem)"),
         "trusted_base": TRUSTED_BASE_COMMON + spec.get("trusted_base", []),
         "theorems": pr["theorems"],
+        "pinned_examples": pr.get("pinned_examples", []),
         "print_assumptions": pr["assumptions"],
         "evaluations": len(lines), "distinct_nontrivial": distinct,
         "rule": spec.get("rule", "cases generated from VERIF_SEED by the harness; distinct = distinct case lines"),
